@@ -37,6 +37,19 @@ def models(tier):
         alpha += [("m", c, n) for n in ("rt:p:0:1", "rt:p:1:1", "rt:a:0:2", "rt:a:1:2")] + [("eof", c)]
     alpha += [("accept",), ("m", 1, "cer_p0"), ("tick", 1)]
     out.append(monitors.ScenarioModel("peer-reconnects", rc_cfg, alpha, MONS, max_socks=2, prelude=PRE))
+    # an origin host whose name contains capital letters (next to a lower-case one)
+    cap = copy.deepcopy(BASE)
+    cap["node"]["retransmit_queue_size"] = 2
+    cap["apps"][0]["behaviour"] = "answer"
+    out.append(monitors.ScenarioModel("origin-host-with-capital-letters", cap, [("m", 0, n) for n in ("rt:c:0:1", "rt:c:1:1", "rt:c:1:2", "rt:a:0:1", "rt:a:1:1", "rt:c:0:2")],
+                                      MONS, max_socks=1, prelude=PRE))
+    # a request is still with the application when its connection receives a DPR; the answer is refused; the peer comes back and repeats
+    # the request with the T flag: it was never answered, so it is served
+    lost = copy.deepcopy(BASE)
+    lost["node"]["retransmit_queue_size"] = 3
+    out.append(monitors.ScenarioModel("answer-refused-then-repeat-after-reconnect", lost,
+                                      [("ans", 0), ("eof", 0), ("accept",), ("m", 1, "cer_p0"), ("m", 1, "rt:p:1:1"), ("m", 1, "rt:p:0:2"), ("ans", 1)],
+                                      MONS, max_socks=2, prelude=PRE + [("m", 0, "rt:p:0:1"), ("m", 0, "dpr")]))
     # two relays forward requests of two origin hosts that happen to carry the same identifier pair (hop-by-hop ids are unique per
     # connection only, end-to-end ids per origin host only) and are pending at the application at the same time
     two = copy.deepcopy(BASE)
